@@ -15,7 +15,7 @@ import (
 	"github.com/sanonone/kektordb/pkg/verifhook"
 )
 
-var c12Nodes = []string{"v", "a", "b", "c", "d"}
+var c12Nodes = []string{"v", "a", "b", "c", "d", "t::e"} // "t::e": ids may contain the separator of graph ids (the product creates session::<n>, _profile::<user> itself)
 var c12Rels = []string{"r", "s", "ri"}
 
 // c12Absent checks every current graph query for traces of the deleted node `victim`
@@ -112,6 +112,13 @@ func c12Build(cs *vkit.Case, x *vexec.Exec, ix string) {
 	case 0:
 		x.VLink(ix, "a", "v", "r", "", 1, nil)
 		x.VLink(ix, "v", "b", "r", "ri", 1, map[string]any{"k": "v"})
+		if r.Chance(0.5) { // the same relation name in both directions
+			x.VLink(ix, vkit.Pick(r, []string{"c", "d", "t::e"}), "v", "s", "s", 1, nil)
+		}
+		if r.Chance(0.5) {
+			x.VLink(ix, "t::e", "v", "r", "", 1, nil)
+			x.VLink(ix, "v", "t::e", "s", "", 1, nil)
+		}
 		if r.Chance(0.7) {
 			x.VLink(ix, "v", "v", "s", "", 1, nil)
 		}
@@ -177,6 +184,9 @@ func TestVerifC12(t *testing.T) {
 				c12Absent(cs, x, ix, "v", "after settled cascade")
 				// deletion interleaved with further links among other nodes
 				x.VLink(ix, "a", "c", "r", "", 1, nil)
+				if cs.R.Chance(0.5) {
+					x.RewriteAOF() // the compacted log carries no VDEL record: nothing repairs what it gets wrong
+				}
 				c01Restart(ctx, cs, x, "restart after cascade")
 				c12Absent(cs, x, ix, "v", "after restart")
 				// explicit re-link of the dead id is allowed and must survive
